@@ -17,7 +17,11 @@ the mutant of the harness self-test).
 
 Abstractions
 * UOD exec functions are parameters (`CmdSpec`): the command completes in the iteration in which the iteration
-  count reaches `dur` (0 = never), and raises in iteration `failAt`.  Argument parsing succeeds.
+  count reaches `dur` (0 = never), and raises in iteration `failAt`.  Whether the argument parser accepts a
+  request's arguments is a property of the request (`Req.bad`).  init / finalize functions do not raise.
+* `objs` holds the instances that have had a callback (serial = order of first callback); an instance that was
+  created but whose arguments were rejected before `initialize()` is an entry of `stale` until a later request
+  of that name initialises it or a cancellation finalizes it.
 * Command requests of UOD commands are interpreter-sourced (`UodCommandNode`, one node and one run-log item per
   request); user-button requests are the lifecycle commands Start/Stop/Restart only.  A lifecycle command is
   requested only while no other lifecycle request is in flight, and UOD requests arrive only while the
@@ -41,6 +45,8 @@ deriving DecidableEq, Repr
 structure Req where
   id : Nat
   name : Name
+  /-- the request carries an argument string that the command's parser rejects (`parse_args` returns None) -/
+  bad : Bool := false
 deriving DecidableEq, Repr
 
 structure CmdSpec where
@@ -115,6 +121,9 @@ structure State where
   executing : List Req := []
   done : List Nat := []
   objs : List Cmd := []
+  /-- entries of `uod.command_instances` that were created but never initialised (their first request was
+  rejected by the argument parser): command name ↦ `instance_id` of the request that created them -/
+  stale : List (Nat × Nat) := []
   track : List Track := []
   tracking : Bool := false
   resident : Option Life := none
@@ -256,6 +265,16 @@ def markReqCancelled (s : State) (i : Nat) : TR :=
   | some s' => some s'
   | none => if s.cfg.fixCancel then markCancelled s i false else none
 
+def staleOwner (st : List (Nat × Nat)) (k : Nat) : Option Nat := (st.find? (fun e => e.1 == k)).map (·.2)
+
+def dropStale (st : List (Nat × Nat)) (k : Nat) : List (Nat × Nat) := st.filter (fun e => e.1 != k)
+
+/-- `cancel()` + `finalize()` of an instance that was never initialised: its only callback is `final`; it is
+released.  (It gets its serial number — order of first callback — now.) -/
+def tomb (s : State) (k ow : Nat) : State :=
+  let c : Cmd := { name := k, serial := s.objs.length, owner := ow, cancelled := true, finalized := true, inMap := false }
+  { s with objs := s.objs ++ [c], events := s.events ++ [.final s.objs.length], stale := dropStale s.stale k }
+
 /-- `_cancel_command(cmd_request, finalize=True)` for a UOD request. Never raises (exceptions are logged). -/
 def cancelCommand (s : State) (r : Req) : State :=
   match r.name with
@@ -269,11 +288,18 @@ def cancelCommand (s : State) (r : Req) : State :=
         | none => s1      -- the exception is logged and swallowed; finalize is skipped
       else finalizeCommand s r c
     | none =>
-      -- repaired code only: a UOD request that has not started yet is dropped
-      if s.cfg.fixCancel && !isDone s r then
-        let s1 := markDone s r
-        (markReqCancelled s1 r.id).getD s1
-      else s
+      match staleOwner s.stale k with
+      | some ow =>
+        -- an instance of that name exists, never initialised: cancelled and finalized like any other
+        match markReqCancelled s r.id with
+        | some s2 => markDone (tomb s2 k ow) r
+        | none => s     -- (unchanged code only; the cancelled flag of the uninitialised instance is not modelled)
+      | none =>
+        -- repaired code only: a UOD request that has not started yet is dropped
+        if s.cfg.fixCancel && !isDone s r then
+          let s1 := markDone s r
+          (markReqCancelled s1 r.id).getD s1
+        else s
   | _ => s     -- no other lifecycle request is in flight (see header)
 
 def conflictLists (cfg : Cfg) (a b : Nat) : List (List Nat) :=
@@ -319,14 +345,6 @@ def execFailed (s : State) (r : Req) (k : Nat) (ser : Nat) : State :=
   let _ := k
   (markFailed s1 r.id).getD s1
 
-/-- "create or get command instance" -/
-def obtainCmd (s : State) (r : Req) (k : Nat) : State × Cmd :=
-  match findLive s.objs k with
-  | some c => (s, c)
-  | none =>
-    let c : Cmd := { name := k, serial := s.objs.length, owner := r.id }
-    ({ s with objs := s.objs ++ [c] }, c)
-
 /-- after a successful iteration: "if uod_command.is_execution_complete() and not uod_command.is_finalized()" -/
 def finishCmd (s : State) (r : Req) (k : Nat) (ser : Nat) : State × Bool :=
   match getObj s.objs ser with
@@ -338,26 +356,27 @@ def finishCmd (s : State) (r : Req) (k : Nat) (ser : Nat) : State × Bool :=
     else (s, false)
   | none => (s, false)
 
-/-- "execute command state flow" of `_execute_uod_command` for the instance `c` -/
+/-- what follows a call of `uod_command.execute`: the clean-up of the `except` arm, or the completion check -/
+def afterExec (p : State × Bool) (r : Req) (k ser : Nat) : State × Bool :=
+  match p with
+  | (s, true) => (execFailed s r k ser, true)
+  | (s, false) => finishCmd s r k ser
+
+/-- "execute command state flow" of `_execute_uod_command` for the (initialised) instance `c` -/
 def runCmd (s : State) (r : Req) (k : Nat) (c : Cmd) : State × Bool :=
   if c.cancelled then
     (if !c.finalized then finalizeCommand s r c else s, false)
-  else
-    let s := if !c.initialized then
-        { s with objs := modObj s.objs c.serial (fun o => { o with initialized := true }),
-                 events := s.events ++ [.init c.serial] }
-      else s
-    let run : Option (State × Bool) :=
-      if c.iters == 0 then
-        match markUodStarted s c.owner c.serial with
-        | none => none
-        | some s => some (execObj s c)
-      else if !c.complete then some (execObj s c)
-      else some (s, false)
-    match run with
+  else if c.iters == 0 then
+    match markUodStarted s c.owner c.serial with
     | none => (execFailed s r k c.serial, true)
-    | some (s, true) => (execFailed s r k c.serial, true)
-    | some (s, false) => finishCmd s r k c.serial
+    | some s' => afterExec (execObj s' c) r k c.serial
+  else if !c.complete then afterExec (execObj s c) r k c.serial
+  else finishCmd s r k c.serial
+
+/-- `parse_args` returned None: "Invalid arguments for command": the request is done, `ValueError`; the handler
+of `_execute_command` marks it failed. -/
+def failParse (s : State) (r : Req) : State :=
+  (markFailed (markDone s r) r.id).getD (markDone s r)
 
 /-- `_execute_uod_command` (+ the handler of `_execute_command`); `true` = an exception leaves the loop. -/
 def executeUod (s : State) (r : Req) (k : Nat) : State × Bool :=
@@ -365,8 +384,20 @@ def executeUod (s : State) (r : Req) (k : Nat) : State × Bool :=
   if s.paused then (s, false) else
   let s1 := cancelSame r k s.executing s
   let s2 := cancelOverlap r k s1.executing s1
-  let p := obtainCmd s2 r k
-  runCmd p.1 r k p.2
+  -- "create or get command instance", then `parse_args`
+  match findLive s2.objs k with
+  | some c => if r.bad then (failParse s2 r, true) else runCmd s2 r k c
+  | none =>
+    if r.bad then
+      -- the (new or older) uninitialised instance stays in `uod.command_instances`
+      (failParse { s2 with stale := if (staleOwner s2.stale k).isSome then s2.stale else s2.stale ++ [(k, r.id)] } r,
+       true)
+    else
+      -- the instance is initialised now: its first callback
+      let c : Cmd := { name := k, serial := s2.objs.length, owner := (staleOwner s2.stale k).getD r.id,
+                       initialized := true }
+      runCmd { s2 with objs := s2.objs ++ [c], stale := dropStale s2.stale k,
+                       events := s2.events ++ [.init c.serial] } r k c
 
 /-! ### Start / Stop / Restart -/
 
@@ -482,12 +513,12 @@ def lifeInFlight (s : State) : Bool :=
   (s.queue ++ s.executing).any (fun r => match r.name with | .uod _ => false | _ => true)
 
 /-- `visit_UodCommandNode`: `create_node_instance_id` + `schedule_execution`. -/
-def request (s : State) (k : Nat) : State × Reply :=
+def request (s : State) (k : Nat) (bad : Bool := false) : State × Reply :=
   if !(s.started && !s.stopping) || k ≥ s.cfg.cmds.length then (s, .unmodelled)
   else
     let t : Track := { id := s.nextId }
     let t := if s.tracking then t.addMark .created else t
-    ({ s with nextId := s.nextId + 1, queue := s.queue ++ [⟨s.nextId, .uod k⟩], track := s.track ++ [t] },
+    ({ s with nextId := s.nextId + 1, queue := s.queue ++ [⟨s.nextId, .uod k, bad⟩], track := s.track ++ [t] },
      .id s.nextId)
 
 /-- `execute_control_command_from_user` for Start / Stop / Restart. -/
@@ -501,7 +532,7 @@ def user (s : State) (n : Name) : State × Reply :=
         | .start => s.sys == .stopped
         | _ => s.sys == .running
       if !valid then (s, .err)
-      else ({ s with nextId := s.nextId + 1, queue := s.queue ++ [⟨s.nextId, n⟩] }, .ok)
+      else ({ s with nextId := s.nextId + 1, queue := s.queue ++ [⟨s.nextId, n, false⟩] }, .ok)
 
 /-- `Tracking.get_command(instance_id)`: the command object stored with the record, if it has started. -/
 def trackObj (s : State) (t : Track) : Option Cmd :=
@@ -557,7 +588,7 @@ def simulate (s : State) (j : Nat) : State :=
   if s.simulated.contains j then s else { s with simulated := s.simulated ++ [j] }
 
 inductive Op where
-  | req (k : Nat)
+  | req (k : Nat) (bad : Bool := false)
   | user (n : Name)
   | tick
   | cancel (i : Nat)
@@ -567,7 +598,7 @@ inductive Op where
 deriving DecidableEq, Repr
 
 def step (s : State) : Op → State × Reply
-  | .req k => request s k
+  | .req k bad => request s k bad
   | .user n => user s n
   | .tick => let (s', raised) := tick s; (s', if raised then .raised else .ok)
   | .cancel i => cancel s i
